@@ -48,6 +48,10 @@ CLAIMED = {
             "snapshot for liveness (no stream with credit and data may be idle) and a final unlimited grant for completeness and order; "
             "spinning is detected by the simulated selector.",
             "SETTINGS bind the server from its ACK on (RFC 7540 6.5.3); applications produce all data at once"),
+    "C08": ("5/C08", "Enumeration of release kind x waiting point x protocol x worker plus seeded variation of sizes, buffers and "
+            "timing: multi-megabyte responses against a stalled reader / closed HTTP/2 window with a byte ledger sampled during the "
+            "stall, liveness of a second connection and a sibling stream, and a 1 s bound on pending sends after the release event.",
+            "512 KiB + one chunk is used as the fixed bound; WebSocket-over-HTTP/2 pressure is exercised by C10 (F21)"),
 }
 
 NOT_APPLICABLE = {
